@@ -52,6 +52,23 @@ noncomputable def relT (P : Particles ℝ) (pid : Nat) (r : StepRec ℝ) : ℝ :
   if r.released then rest2 P pid else 0
 
 /-- flags of a step record are consistent with its fate -/
+theorem postAct_flags (P : Particles ℝ) (pid : Nat) (inp : StepIn ℝ) (a : ElossOut ℝ) :
+    ((postAct P pid inp a).fate = .alive →
+        (postAct P pid inp a).released = false ∧ (postAct P pid inp a).rangeKilled = false)
+    ∧ ((postAct P pid inp a).fate = .escaped →
+        (postAct P pid inp a).released = false ∧ (postAct P pid inp a).rangeKilled = false)
+    ∧ ((postAct P pid inp a).fate = .killed →
+        (postAct P pid inp a).rangeKilled = false ∧ (postAct P pid inp a).released = true) := by
+  unfold postAct
+  cases inp.post with
+  | none => simp
+  | boundary ex => cases ex <;> simp
+  | trackingCut => simp
+  | interact r =>
+    simp only []
+    generalize (applyInteraction P inp.postCut a.e a.dep r).killed = k
+    cases k <;> simp
+
 theorem postStep_flags (P : Particles ℝ) (pid : Nat) (inp : StepIn ℝ) (a : ElossOut ℝ) :
     ((postStep P pid inp a).fate = .alive →
         (postStep P pid inp a).released = false ∧ (postStep P pid inp a).rangeKilled = false)
@@ -60,14 +77,52 @@ theorem postStep_flags (P : Particles ℝ) (pid : Nat) (inp : StepIn ℝ) (a : E
     ∧ ((postStep P pid inp a).fate = .killed →
         ((postStep P pid inp a).rangeKilled = true ∧ (postStep P pid inp a).released = false)
         ∨ ((postStep P pid inp a).rangeKilled = false ∧ (postStep P pid inp a).released = true)) := by
+  have h := postAct_flags P pid inp a
   unfold postStep
-  cases a.stop <;> simp only [] <;> try (simp; done)
-  all_goals
-    cases inp.post with
-    | none => simp
-    | boundary ex => cases ex <;> simp
-    | trackingCut => simp
-    | interact r => cases (applyInteraction P inp.postCut a.e a.dep r).killed <;> simp
+  cases a.stop <;> simp only []
+  · exact ⟨h.1, h.2.1, fun hk => Or.inr (h.2.2 hk)⟩
+  · simp
+  · exact ⟨h.1, h.2.1, fun hk => Or.inr (h.2.2 hk)⟩
+
+theorem postAct_balance (P : Particles ℝ) (pid : Nat) (inp : StepIn ℝ) (a : ElossOut ℝ)
+    (ha : 0 ≤ a.e)
+    (hp : match inp.post with
+      | .interact r => InteractorOK P pid a.e r
+      | _ => True) :
+    a.e + a.dep + relT P pid (postAct P pid inp a)
+        = (postAct P pid inp a).e1 + (postAct P pid inp a).dep
+          + sumT P (postAct P pid inp a).secs
+      ∧ 0 ≤ (postAct P pid inp a).e1
+      ∧ ((postAct P pid inp a).fate = .killed → (postAct P pid inp a).e1 = 0) := by
+  unfold relT postAct
+  cases hpost : inp.post with
+  | none => simp; exact ha
+  | boundary ex => cases ex <;> simp <;> exact ha
+  | trackingCut =>
+    have ht := trackingCut_sum P pid a.e a.dep
+    simp only [if_true, sumT_nil]
+    refine ⟨by linarith [ht.1, ht.2], by rw [ht.1], fun _ => ht.1⟩
+  | interact r =>
+    rw [hpost] at hp
+    simp only [] at hp
+    have hi := applyInteraction_balance P inp.postCut pid a.e a.dep r hp
+    simp only []
+    refine ⟨?_, ?_, ?_⟩
+    · unfold sumTo at hi
+      linarith
+    · unfold applyInteraction InteractorOK at *
+      cases hact : r.action <;> simp only [hact] at hp ⊢
+      · exact hp.2
+      · rw [hp.2]
+      · exact ha
+      · exact ha
+    · intro hk
+      unfold applyInteraction InteractorOK at *
+      cases hact : r.action <;> simp only [hact] at hp hk ⊢
+      · simp at hk
+      · exact hp.2
+      · simp at hk
+      · simp at hk
 
 /-- the post action on the state left by the along-step -/
 theorem postStep_balance (P : Particles ℝ) (pid : Nat) (inp : StepIn ℝ) (a : ElossOut ℝ)
@@ -80,115 +135,15 @@ theorem postStep_balance (P : Particles ℝ) (pid : Nat) (inp : StepIn ℝ) (a :
           + sumT P (postStep P pid inp a).secs
       ∧ 0 ≤ (postStep P pid inp a).e1
       ∧ ((postStep P pid inp a).fate = .killed → (postStep P pid inp a).e1 = 0) := by
-  have key : ∀ (_ : a.stop ≠ .killedRange),
-      a.e + a.dep + relT P pid (match inp.post with
-          | .none => (⟨a.e, a.dep, [], .alive, false, false⟩ : StepRec ℝ)
-          | .boundary exits => ⟨a.e, a.dep, [], if exits then .escaped else .alive, false, false⟩
-          | .trackingCut =>
-            ⟨(trackingCut P pid a.e a.dep).1, (trackingCut P pid a.e a.dep).2, [], .killed, true, false⟩
-          | .interact r =>
-            ⟨(applyInteraction P inp.postCut a.e a.dep r).e, (applyInteraction P inp.postCut a.e a.dep r).dep,
-              keepSecs (applyInteraction P inp.postCut a.e a.dep r).secs,
-              if (applyInteraction P inp.postCut a.e a.dep r).killed then .killed else .alive,
-              (applyInteraction P inp.postCut a.e a.dep r).killed, false⟩)
-        = (match inp.post with
-          | .none => (⟨a.e, a.dep, [], .alive, false, false⟩ : StepRec ℝ)
-          | .boundary exits => ⟨a.e, a.dep, [], if exits then .escaped else .alive, false, false⟩
-          | .trackingCut =>
-            ⟨(trackingCut P pid a.e a.dep).1, (trackingCut P pid a.e a.dep).2, [], .killed, true, false⟩
-          | .interact r =>
-            ⟨(applyInteraction P inp.postCut a.e a.dep r).e, (applyInteraction P inp.postCut a.e a.dep r).dep,
-              keepSecs (applyInteraction P inp.postCut a.e a.dep r).secs,
-              if (applyInteraction P inp.postCut a.e a.dep r).killed then .killed else .alive,
-              (applyInteraction P inp.postCut a.e a.dep r).killed, false⟩).e1
-          + (match inp.post with
-          | .none => (⟨a.e, a.dep, [], .alive, false, false⟩ : StepRec ℝ)
-          | .boundary exits => ⟨a.e, a.dep, [], if exits then .escaped else .alive, false, false⟩
-          | .trackingCut =>
-            ⟨(trackingCut P pid a.e a.dep).1, (trackingCut P pid a.e a.dep).2, [], .killed, true, false⟩
-          | .interact r =>
-            ⟨(applyInteraction P inp.postCut a.e a.dep r).e, (applyInteraction P inp.postCut a.e a.dep r).dep,
-              keepSecs (applyInteraction P inp.postCut a.e a.dep r).secs,
-              if (applyInteraction P inp.postCut a.e a.dep r).killed then .killed else .alive,
-              (applyInteraction P inp.postCut a.e a.dep r).killed, false⟩).dep
-          + sumT P (match inp.post with
-          | .none => (⟨a.e, a.dep, [], .alive, false, false⟩ : StepRec ℝ)
-          | .boundary exits => ⟨a.e, a.dep, [], if exits then .escaped else .alive, false, false⟩
-          | .trackingCut =>
-            ⟨(trackingCut P pid a.e a.dep).1, (trackingCut P pid a.e a.dep).2, [], .killed, true, false⟩
-          | .interact r =>
-            ⟨(applyInteraction P inp.postCut a.e a.dep r).e, (applyInteraction P inp.postCut a.e a.dep r).dep,
-              keepSecs (applyInteraction P inp.postCut a.e a.dep r).secs,
-              if (applyInteraction P inp.postCut a.e a.dep r).killed then .killed else .alive,
-              (applyInteraction P inp.postCut a.e a.dep r).killed, false⟩).secs
-        ∧ 0 ≤ (match inp.post with
-          | .none => (⟨a.e, a.dep, [], .alive, false, false⟩ : StepRec ℝ)
-          | .boundary exits => ⟨a.e, a.dep, [], if exits then .escaped else .alive, false, false⟩
-          | .trackingCut =>
-            ⟨(trackingCut P pid a.e a.dep).1, (trackingCut P pid a.e a.dep).2, [], .killed, true, false⟩
-          | .interact r =>
-            ⟨(applyInteraction P inp.postCut a.e a.dep r).e, (applyInteraction P inp.postCut a.e a.dep r).dep,
-              keepSecs (applyInteraction P inp.postCut a.e a.dep r).secs,
-              if (applyInteraction P inp.postCut a.e a.dep r).killed then .killed else .alive,
-              (applyInteraction P inp.postCut a.e a.dep r).killed, false⟩).e1
-        ∧ ((match inp.post with
-          | .none => (⟨a.e, a.dep, [], .alive, false, false⟩ : StepRec ℝ)
-          | .boundary exits => ⟨a.e, a.dep, [], if exits then .escaped else .alive, false, false⟩
-          | .trackingCut =>
-            ⟨(trackingCut P pid a.e a.dep).1, (trackingCut P pid a.e a.dep).2, [], .killed, true, false⟩
-          | .interact r =>
-            ⟨(applyInteraction P inp.postCut a.e a.dep r).e, (applyInteraction P inp.postCut a.e a.dep r).dep,
-              keepSecs (applyInteraction P inp.postCut a.e a.dep r).secs,
-              if (applyInteraction P inp.postCut a.e a.dep r).killed then .killed else .alive,
-              (applyInteraction P inp.postCut a.e a.dep r).killed, false⟩).fate = .killed →
-          (match inp.post with
-          | .none => (⟨a.e, a.dep, [], .alive, false, false⟩ : StepRec ℝ)
-          | .boundary exits => ⟨a.e, a.dep, [], if exits then .escaped else .alive, false, false⟩
-          | .trackingCut =>
-            ⟨(trackingCut P pid a.e a.dep).1, (trackingCut P pid a.e a.dep).2, [], .killed, true, false⟩
-          | .interact r =>
-            ⟨(applyInteraction P inp.postCut a.e a.dep r).e, (applyInteraction P inp.postCut a.e a.dep r).dep,
-              keepSecs (applyInteraction P inp.postCut a.e a.dep r).secs,
-              if (applyInteraction P inp.postCut a.e a.dep r).killed then .killed else .alive,
-              (applyInteraction P inp.postCut a.e a.dep r).killed, false⟩).e1 = 0) := by
-    intro _
-    unfold relT
-    cases hpost : inp.post with
-    | none => simp
-    | boundary ex => cases ex <;> simp
-    | trackingCut =>
-      have ht := trackingCut_sum P pid a.e a.dep
-      simp only [if_true, sumT_nil]
-      refine ⟨by linarith [ht.1, ht.2], by rw [ht.1], fun _ => ht.1⟩
-    | interact r =>
-      rw [hpost] at hp
-      simp only [] at hp
-      have hi := applyInteraction_balance P inp.postCut pid a.e a.dep r hp
-      simp only []
-      refine ⟨?_, ?_, ?_⟩
-      · unfold sumTo at hi
-        linarith
-      · unfold applyInteraction InteractorOK at *
-        cases hact : r.action <;> simp only [hact] at hp ⊢
-        · cases inp.postCut <;> simp <;> exact hp.2
-        · cases inp.postCut <;> simp <;> rw [hp.2]
-        · exact ha
-        · exact ha
-      · intro hk
-        unfold applyInteraction InteractorOK at *
-        cases hact : r.action <;> simp only [hact] at hp hk ⊢
-        · cases hpc : inp.postCut <;> simp [hpc] at hk
-        · cases inp.postCut <;> simp <;> exact hp.2
-        · simp at hk
-        · simp at hk
+  have key := postAct_balance P pid inp a ha hp
   unfold postStep
   cases hstop : a.stop with
   | killedRange =>
     simp only [relT]
     have := hs hstop
     refine ⟨by simp, ha, fun _ => this⟩
-  | none => exact key (by rw [hstop]; decide)
-  | forcedDiscrete => exact key (by rw [hstop]; decide)
+  | none => exact key
+  | forcedDiscrete => exact key
 
 /-- ★ one step: kinetic energy before (+ the track's own 2mc² when the step accounts for it)
     = kinetic energy after + deposition + total energy of the emitted secondaries -/
